@@ -1181,7 +1181,7 @@ where
 {
     use crate::Counter;
     use std::cmp::Ordering;
-    use std::io::{BufReader, BufWriter, Read, sink};
+    use std::io::{BufReader, BufWriter, Read, Write, sink};
 
     fn rebuild_file<N, R>(
         rebuilt: impl FnOnce() -> std::io::Result<N>,
@@ -1202,6 +1202,15 @@ where
         rebuilt()
             .and_then(|mut f| f.write_all(tmp.as_slice()))
             .map_err(Error::Io)
+    }
+
+    /// Overwrites the old blocks with the new ones.
+    /// Success is only reported once the buffered bytes
+    /// have reached the underlying stream.
+    fn write_in_place<W: Write>(w: W, blocks: BlockList) -> Result<(), Error> {
+        let mut w = BufWriter::new(w);
+        write_blocks(&mut w, blocks)?;
+        w.flush().map_err(Error::Io)
     }
 
     /// Returns Ok if successful
@@ -1263,7 +1272,7 @@ where
             match grow_padding(&mut blocks, old_size - new_size) {
                 Ok(()) => {
                     original.seek(start).map_err(Error::Io)?;
-                    write_blocks(BufWriter::new(original), blocks)
+                    write_in_place(original, blocks)
                         .map(|()| false)
                         .map_err(E::from)
                 }
@@ -1275,7 +1284,7 @@ where
         Ordering::Equal => {
             // blocks are the same size, so no need to adjust padding
             original.seek(start).map_err(Error::Io)?;
-            write_blocks(BufWriter::new(original), blocks)
+            write_in_place(original, blocks)
                 .map(|()| false)
                 .map_err(E::from)
         }
@@ -1285,7 +1294,7 @@ where
             match shrink_padding(&mut blocks, new_size - old_size) {
                 Ok(()) => {
                     original.seek(start).map_err(Error::Io)?;
-                    write_blocks(BufWriter::new(original), blocks)
+                    write_in_place(original, blocks)
                         .map(|()| false)
                         .map_err(E::from)
                 }
